@@ -527,8 +527,8 @@ class StmtMixin:
                     for gname, (_i, step) in lp.ghost.items():
                         o.path.ghost["loopghost"] = dict(o.path.ghost.get("loopghost", {}))
                         o.path.ghost["loopghost"][gname] = step(self.loop_ctx(o.path, lp, k=kk, extra=extra))
-                    if kind == "list":  # the iterated list must not be mutated by the body
-                        lz = itv.z
+                    if kind.endswith("list"):  # the iterated list must not be mutated by the body
+                        lz = self._iter_list
                         i = L.fresh("i", L.I)
                         self.oblige(o.path, f"L{line}/loop{k}/iterated-list-unchanged", And(o.path.heap.llen(lz) == it.heap.llen(lz), ForAll([i], Implies(And(0 <= i, i < it.heap.llen(lz)), o.path.heap.litem(lz, i) == it.heap.litem(lz, i)), patterns=[o.path.heap.litem(lz, i)])), kind="safety")
                     self.oblige(o.path, f"L{line}/loop{k}/invariant-preserved", lp.invariant(self.loop_ctx(o.path, lp, k=kk + 1, extra=extra)), kind="inv")
@@ -550,7 +550,7 @@ class StmtMixin:
             self.oblige(p, f"L{line}/iterate-None", itv.z != L.LNONE, kind="safety")
             p.assume(itv.z != L.LNONE)
             lz = itv.z
-            h_loop = h
+            self._iter_list = lz
             return "list", h.llen(lz), (lambda k, q: RefV(q.heap.litem(lz, k), "Node"))
         if itv.tag == "tuple":
             raise Unsupported("iteration over a tuple")
